@@ -7,7 +7,7 @@ import shutil
 import sys
 import tempfile
 
-sys.path.insert(0, "/repo")
+sys.path.insert(0, __import__("os").environ.get("VERIF_REPO", "/repo"))
 from fibertree import Tensor  # noqa: E402
 from fibertree.model.format import Format  # noqa: E402
 from fibertree.model.traffic import Traffic  # noqa: E402
